@@ -88,7 +88,7 @@ def run(ck, facts, tier):
                     ck.ok(R, inst, why)
                 else:
                     ck.violation(R, inst, b.where(x.get("ln")), "a strand / fulfillment context is created with a substitution of unknown provenance")
-    ck.floor(R, "ExClause/Fulfill-constructions", n, 5)
+    ck.floor(R, "ExClause/Fulfill-constructions", n, 4)
     # callers pass the from_canonical substitution
     for key, callee in (("chalk_engine::forest::Forest::build_table", ("resolvent_clause", "simplify_goal")),
                         ("chalk_recursive::solve::SolveIterationHelpers::solve_from_clauses", ("Fulfill::new_with_clause",)),
